@@ -790,6 +790,12 @@ where
         let new_len = len.checked_add(additional).expect("too many variables");
         let range = len as VarNo..new_len as VarNo;
 
+        // Results in the apply cache may depend on the set of variables (e.g.,
+        // ZBDD operations in the Boolean function view), so clear it.
+        let clear_cache = !self.reorder_gc_prepared;
+        if clear_cache {
+            self.data.pre_gc(self);
+        }
         self.data.pre_reorder(self);
         MD::pre_reorder_mut(self);
 
@@ -804,6 +810,10 @@ where
 
         self.data.post_reorder(self);
         MD::post_reorder_mut(self);
+        if clear_cache {
+            // SAFETY: `pre_gc()` was called above, no node has been removed
+            unsafe { self.data.post_gc(self) };
+        }
 
         range
     }
@@ -813,6 +823,12 @@ where
         &mut self,
         names: impl IntoIterator<Item = S>,
     ) -> Result<Range<VarNo>, DuplicateVarName> {
+        // Results in the apply cache may depend on the set of variables (e.g.,
+        // ZBDD operations in the Boolean function view), so clear it.
+        let clear_cache = !self.reorder_gc_prepared;
+        if clear_cache {
+            self.data.pre_gc(self);
+        }
         self.data.pre_reorder(self);
         MD::pre_reorder_mut(self);
 
@@ -833,6 +849,10 @@ where
 
             this.data.post_reorder(this);
             MD::post_reorder_mut(this);
+            if clear_cache {
+                // SAFETY: `pre_gc()` was called above, no node has been removed
+                unsafe { this.data.post_gc(this) };
+            }
         });
 
         let mut names = names.into_iter();
@@ -856,6 +876,10 @@ where
             return self.add_named_vars(map.into_names_iter());
         }
 
+        let clear_cache = !self.reorder_gc_prepared;
+        if clear_cache {
+            self.data.pre_gc(self);
+        }
         self.data.pre_reorder(self);
         MD::pre_reorder_mut(self);
 
@@ -871,6 +895,10 @@ where
 
         self.data.post_reorder(self);
         MD::post_reorder_mut(self);
+        if clear_cache {
+            // SAFETY: `pre_gc()` was called above, no node has been removed
+            unsafe { self.data.post_gc(self) };
+        }
 
         Ok(0..n)
     }
